@@ -771,7 +771,10 @@ impl Context {
                         } else if f.is_optional() {
                             anyhow::Ok((format!("{name}: None"), true))
                         } else {
-                            anyhow::Ok((format!("{name}: Default::default()"), false))
+                            anyhow::Ok((
+                                format!("{name}: ::std::default::Default::default()"),
+                                false,
+                            ))
                         }
                     })
                     .try_collect()?;
